@@ -95,5 +95,22 @@ RootGcd ==
           ELSE /\ g >= 1 /\ AbsN(NV(x)) % g = 0 /\ AbsN(NV(y)) % g = 0
                /\ \A d \in 1..PowInt(2, w) : (AbsN(NV(x)) % d = 0 /\ AbsN(NV(y)) % d = 0) => d <= g
 
-L2OK == Encoding /\ Projections /\ Shifts /\ BitsOK /\ PowLog /\ MidOK /\ RootGcd
+\* C16, second sentence, at the design level: extending the operands into a wider type commutes with every
+\* value-level operation whose exact result is representable in the narrower type (checked/wrapping forms,
+\* comparison, decimal print and parse)
+NarrowWide ==
+    \A dw \in {w + DB, w + 2 * DB} :
+        LET D == Ty(dw, s)
+            Same(z) == InRange(T, z) => /\ OChecked(T, z) = OSome(T, z) /\ OChecked(D, z) = OSome(D, z)
+                                       /\ Dec(D, Enc(D, z)) = Dec(T, Enc(T, z))
+        IN /\ Dec(D, Enc(D, X)) = X                                  \* the extension itself preserves the value
+           /\ Same(ZAdd(X, Y)) /\ Same(ZSub(X, Y)) /\ Same(ZMul(X, Y))
+           /\ (~ZIsZero(Y) /\ ~IsMinNeg1(T, X, Y) => Same(ZDivTrunc(X, Y)[1]) /\ Same(ZDivTrunc(X, Y)[2]))
+           /\ \A k \in 0..(w - 1) : InRange(T, ZMul(X, ZNat(Pow2(k)))) => ShlVal(T, X, k) = ShlVal(D, X, k)
+           /\ ParseStr(T, DecBytes(X), 10) = OOk(T, X) /\ ParseStr(D, DecBytes(X), 10) = OOk(D, X)
+           /\ (NV(y) >= 0 /\ NV(y) <= 5 =>
+                 LET pt == PowExact(T, X, Nat2(NV(y)))  pd == PowExact(D, X, Nat2(NV(y)))
+                 IN (~pt.over /\ InRange(T, pt.v)) => (~pd.over /\ pd.v = pt.v))
+
+L2OK == NarrowWide /\ Encoding /\ Projections /\ Shifts /\ BitsOK /\ PowLog /\ MidOK /\ RootGcd
 ==============================================================================
